@@ -44,6 +44,29 @@ fn rep_instance(n: usize, tail: &str) -> Instance {
     Instance { name: pat.clone(), cfg: Cfg::single(vec![CPat::new(&pat, 7)]), probes, states: n + t + 1 }
 }
 
+fn range_instance(n: usize, m: usize) -> Instance {
+    // a{n,m}: runs of n..m a's are one token, longer runs are cut after m, shorter ones match nothing
+    let pat = format!("a{{{n},{m}}}");
+    let mut lens = vec![n.saturating_sub(1), n, n + 1, (n + m) / 2, m.saturating_sub(22), m - 1, m, m + 1, 2 * m + 3, 1, 2, 65, 129];
+    lens.sort();
+    lens.dedup();
+    let probes = lens
+        .into_iter()
+        .filter(|l| *l > 0)
+        .map(|l| {
+            let mut want = vec![];
+            let mut pos = 0;
+            while l - pos >= n.max(1) {
+                let t = m.min(l - pos);
+                want.push((7, pos, pos + t));
+                pos += t;
+            }
+            ("a".repeat(l), want)
+        })
+        .collect();
+    Instance { name: pat.clone(), cfg: Cfg::single(vec![CPat::new(&pat, 7)]), probes, states: m + 1 }
+}
+
 fn keywords_instance(n: usize, width: usize) -> Instance {
     // k0000 .. k<n-1>: one keyword per token type
     let kws: Vec<String> = (0..n).map(|i| format!("k{:0w$}", i, w = width)).collect();
@@ -244,6 +267,9 @@ pub fn run(tier: Tier) -> ! {
         rep_instance(1100, ""),
         rep_instance(1500, "b"),
         rep_instance(2200, "bc"),
+        range_instance(2, 150),
+        range_instance(100, 180),
+        range_instance(0, 1000),
         keywords_instance(1000, 4),
         keywords_ident_instance(1300, 4),
         modes_chain_instance(300),
